@@ -34,6 +34,7 @@ def gen(tier, rng, scale):
     for _ in range((350 if quick else 5000) * scale):
         n = rng.range(6, 80 if quick else 300)
         t = rng.below(1000)
+        lifecycle = rng.chance(1, 3)
         items = []
         for _ in range(n):
             r = rng.below(100)
@@ -44,6 +45,10 @@ def gen(tier, rng, scale):
             else:
                 t += rng.below(2000) * rng.choice([1, 1, 1000, 10**6])
             t = min(t, 2**48)
+            if lifecycle and rng.chance(1, 10):
+                # the thread's end / start time or name is set between samples (a converter does that when EXIT / COMM records arrive): the samples
+                # added later, also those after the stated end time, keep their own times
+                items.append(rng.choice([["e", max(0, t - rng.below(3000))], ["e", t + rng.below(100)], ["b", rng.below(t + 1)], ["nm", "t%d" % rng.below(9)]]))
             if rng.chance(1, 3):
                 items.append(["m", t, rng.choice([1, 1, 1, 3, -2])])
             else:
@@ -113,7 +118,7 @@ def evaluate(cases):
             else:
                 st = int(s)
             rows.append("(%s, %d, (%s)%%Z, %s)" % (d, st, w, cpu))
-        terms.append("(%s, %s, %s)" % (K.coq_list([_coq_op(it) for it in c["items"]]), K.coq_list(rows), "true" if bad else "false"))
+        terms.append("(%s, %s, %s)" % (K.coq_list([_coq_op(it) for it in c["items"] if it[0] not in ("e", "b", "nm")]), K.coq_list(rows), "true" if bad else "false"))
     shards = ["Definition cases : list (list op * list row * bool) := %s.\nEval vm_compute in (map verdict cases).\n" % K.coq_list(ch)
               for ch in K.chunked(terms, K.NCPU)]
     try:
@@ -143,6 +148,8 @@ def distribution(cases):
         prev = None
         for it in c["items"]:
             d["calls"][it[0]] = d["calls"].get(it[0], 0) + 1
+            if it[0] in ("e", "b", "nm"):
+                continue
             if prev is not None:
                 if it[1] < prev:
                     d["out_of_order_steps"] += 1
